@@ -142,7 +142,9 @@ pub enum Op {
 
 #[derive(Debug, Clone, PartialEq)]
 pub enum Num {
-    I(i64),
+    /// integer constants are kept exactly, also outside the i64 range (such a rule is a load
+    /// error today; should one ever load, the relation is judged by exact arithmetic)
+    I(i128),
     F(f64),
 }
 
@@ -222,7 +224,7 @@ pub fn parse_pattern(s: &str) -> Option<(Pat, bool)> {
             let num = if n.contains('.') {
                 Num::F(n.parse::<f64>().ok()?)
             } else {
-                Num::I(n.parse::<i64>().ok()?)
+                Num::I(n.parse::<i128>().ok()?)
             };
             return Some((Pat::Cmp(op, num), ci));
         }
@@ -291,7 +293,9 @@ fn parse_val(v: &Y, top: bool) -> Option<RVal> {
         Y::Bool(b) => RVal::Bool(*b),
         Y::Number(n) => {
             if let Some(i) = n.as_i64() {
-                RVal::Num(Num::I(i))
+                RVal::Num(Num::I(i as i128))
+            } else if let Some(u) = n.as_u64() {
+                RVal::Num(Num::I(u as i128))
             } else {
                 RVal::Num(Num::F(n.as_f64()?))
             }
@@ -984,7 +988,7 @@ fn eval_single(kmod: &KeyMod, val: &RVal, fv: Option<&MVal>) -> u8 {
     };
     match val {
         RVal::Bool(b) => match kmod {
-            KeyMod::Int => num_pred(kmod, Op::Eq, &Num::I(*b as i64), v),
+            KeyMod::Int => num_pred(kmod, Op::Eq, &Num::I(*b as i128), v),
             KeyMod::Str => str_pred(&Pat::Exact(b.to_string()), false, true, v),
             KeyMod::Flt => ANY,
             _ => match v {
